@@ -171,15 +171,21 @@ func Harness_C08_negotiate() {
 	f := NewClosedSetsFinder(g.db, rs, depth)
 	var acks [][]byte
 	var err error
+	// whether the negotiation ends with done=true or is simply cut off (the caller then
+	// asks for the commits anyway, as the push session does): a choice with symDone=1
+	lastDone := true
+	if zzverif.Param("symDone", 0) == 1 {
+		lastDone = zzverif.Bool("lastRoundDone")
+	}
 	if rounds == 1 {
-		acks, err = f.Process(wants, haves, true)
+		acks, err = f.Process(wants, haves, lastDone)
 	} else {
 		k := len(haves) / 2
 		var a1, a2 [][]byte
 		a1, err = f.Process(wants, haves[:k], false)
 		acks = append(acks, a1...)
 		if err == nil {
-			a2, err = f.Process(nil, haves[k:], true)
+			a2, err = f.Process(nil, haves[k:], lastDone)
 			acks = append(acks, a2...)
 		}
 	}
